@@ -191,7 +191,6 @@ Proof.
       rewrite Z.mod_add by discriminate. apply Z.mod_small. lia.
 Qed.
 
-Fixpoint sumZ (l : list Z) : Z := match l with [] => 0 | x :: r => x + sumZ r end.
 
 (* a counter accumulated with wrapping additions is the wrapped mathematical sum *)
 Lemma fold_w64_sum : forall (xs : list Z) (init : Z),
@@ -203,10 +202,6 @@ Proof.
 Qed.
 
 (* ------------------------------------------------------------------ the summed fields *)
-Definition cfields : list (cnum -> Z) :=
-  [n_depth; n_mem; n_backend; n_inflight; n_deferred; n_requeue; n_timeout; n_msgs; n_delivery; n_zone; n_region; n_global; n_ccount].
-Definition tfields : list (tnum -> Z) :=
-  [t_depth; t_mem; t_backend; t_msgs; t_delivery; t_zone; t_region; t_global].
 
 Lemma cfield_add : forall f, In f cfields -> forall a b, f (cn_add a b) = w64 (f a + f b).
 Proof.
@@ -378,7 +373,6 @@ Proof.
 Qed.
 
 (* node list: one entry per TCP address *)
-Definition ne_keys (l : list nentry) : list bytes := map (fun e => tcp_addr (ne_prod e)) l.
 
 Lemma add_remote_keys : forall key r l, ne_keys (add_remote key r l) = ne_keys l.
 Proof.
@@ -473,25 +467,9 @@ Proof.
 Qed.
 
 (* ------------------------------------------------------------------ GetNSQDStats: the keyed channel map *)
-(* every (producer, topic name, channel) occurrence the loops visit, in order *)
-Definition centry : Type := pinfo * bytes * chan.
-Definition topic_entries (p : pinfo) (sel : bytes) (t : topic) : list centry :=
-  if sel_skips sel (tp_name t) then [] else map (fun c => (p, tp_name t, c)) (nonnil (tp_chans t)).
-Definition all_entries (ups : list (pinfo * fetch (list (option topic)))) (sel : bytes) : list centry :=
-  flat_map (fun u : pinfo * list (option topic) => flat_map (topic_entries (fst u) sel) (nonnil (snd u))) (answers ups).
 Definition entry_step (sel : bytes) (cm : list (bytes * cagg)) (e : centry) : list (bytes * cagg) :=
   proc_chan (fst (fst e)) sel (snd (fst e)) cm (snd e).
-Definition ekey (sel : bytes) (e : centry) : bytes := chan_key sel (snd (fst e)) (ch_name (snd e)).
 
-(* the per-node topic entries of the result *)
-Definition topic_nodes (p : pinfo) (sel : bytes) (t : topic) : list tnode :=
-  if sel_skips sel (tp_name t) then []
-  else [mkTN (p_addr p) (p_hostname p) (tp_name t) (topic_num t) (tp_paused t) (tp_chans t)].
-Definition all_topic_nodes (ups : list (pinfo * fetch (list (option topic)))) (sel : bytes) : list tnode :=
-  flat_map (fun u : pinfo * list (option topic) => flat_map (topic_nodes (fst u) sel) (nonnil (snd u))) (answers ups).
-
-Definition stats_value (ups : list (pinfo * fetch (list (option topic)))) (sel : bytes) : stats_state :=
-  fold_left (fun st u => fold_left (proc_topic (fst u) sel) (nonnil (snd u)) st) (answers ups) ([], []).
 
 Lemma proc_topic_fold : forall p sel ts st,
   fold_left (proc_topic p sel) ts st =
@@ -617,7 +595,6 @@ Theorem stats_topic_nodes : forall ups sel, fst (stats_value ups sel) = all_topi
 Proof. intros ups sel. rewrite stats_value_spec. reflexivity. Qed.
 
 (* ------------------------------------------------------------------ TopicStats.Add over the nodes *)
-Definition tagg_of (nodes : list tnode) : tagg := fold_left tagg_add nodes tagg_zero.
 
 Lemma tagg_fold_num : forall nodes t, ta_num (fold_left tagg_add nodes t) = fold_left tn_add (map tn_num nodes) (ta_num t).
 Proof. induction nodes as [|a nodes IH]; intro t; simpl. reflexivity. rewrite IH. reflexivity. Qed.
@@ -639,11 +616,6 @@ Proof.
   rewrite IH. simpl. rewrite fold_left_app. reflexivity.
 Qed.
 
-Fixpoint cs_find (k : bytes) (cs : list chan_sum) : option chan_sum :=
-  match cs with
-  | [] => None
-  | s :: r => if bytes_eqb (cs_name s) k then Some s else cs_find k r
-  end.
 Lemma cs_find_exists : forall k cs, existsb (fun s => bytes_eqb (cs_name s) k) cs = match cs_find k cs with Some _ => true | None => false end.
 Proof. intros k. induction cs as [|s cs IH]; simpl. reflexivity. destruct (bytes_eqb (cs_name s) k); simpl. reflexivity. exact IH. Qed.
 Lemma cs_find_app_none : forall k a b, cs_find k a = None -> cs_find k (a ++ b) = cs_find k b.
@@ -900,7 +872,6 @@ Qed.
 
 (* the handler-side merge: a null channel inside a selected topic is a recovered panic (500),
    never a crash *)
-Definition has_null_chan (nodes : list tnode) : bool := existsb (fun a => existsb is_nil (tn_chans a)) nodes.
 
 Lemma merge_fold_g : forall l cs,
   fold_res (fun cs pc => match pc with Some c => Ok (merge_chan cs c) | None => Recovered end) l cs =
